@@ -59,6 +59,11 @@ def sc_val(prog, v):
 
 def check(ctx):
     prog = ctx.prog
+    W1 = ctx.rule("W1", "what the client can READ of an authorization and its challenges: member / type names per RFC 8555 7.1.4, 8 and RFC 8737, unknown members ignored")
+    from .wire_shape import check_read_shapes
+    check_read_shapes(ctx, W1, ["acmed::acme_proto::structs::authorization::Authorization", "acmed::acme_proto::structs::authorization::AuthorizationStatus",
+                                "acmed::acme_proto::structs::authorization::Challenge", "acmed::acme_proto::structs::authorization::TokenChallenge",
+                                "acmed::acme_proto::structs::authorization::ChallengeStatus", "acmed::acme_proto::structs::order::Identifier", "acmed::identifier::IdentifierType"])
     b = prog.async_body(RC)
     R1 = ctx.rule("R1", "the CA is told a challenge is ready only after its challenge hooks succeeded")
     ready = [c for c in b.calls_to("acmed::acme_proto::http::post_jose_no_response") if any(x.is_(SC + "::get_url") for x in arg_origins(c, 2).calls)]
